@@ -213,7 +213,17 @@ pub fn gen(thorough: bool, seed: u64, out: &mut impl Write) {
       writeln!(out, "C17 new {} {}", hex(&[7u8; 32]), hex(n.as_bytes())).unwrap();
     }
   }
-  let alpha = ["a", "z", "0", "9", "A", "-", "é", ":", ""];
+  // network names that contain the tag prefix "0x", or look like (part of) a tag
+  for n in ["0x", "a0x", "0xa", "10x2", "ab0xcd", "0x0x", "x0", "0", "00", "0xf29d", "f29dd1", "0X"] {
+    writeln!(out, "C17 net {}", hex(n.as_bytes())).unwrap();
+    emit_parse(out, &format!("did:iota:{}:{}", n, tag));
+    emit_parse(out, &format!("did:iota:{}:{}", n, zero));
+    if NetworkName::try_from(n.to_string()).is_ok() {
+      writeln!(out, "C17 new {} {}", hex(&[7u8; 32]), hex(n.as_bytes())).unwrap();
+      writeln!(out, "C17 new {} {}", hex(&[0u8; 32]), hex(n.as_bytes())).unwrap();
+    }
+  }
+  let alpha = ["a", "z", "0", "9", "A", "-", "é", ":", "", "x"];
   for a in alpha {
     for b in alpha {
       for c in alpha {
@@ -227,7 +237,7 @@ pub fn gen(thorough: bool, seed: u64, out: &mut impl Write) {
     writeln!(out, "C17 net {}", hex(n.as_bytes())).unwrap();
   }
   // new(): random tags x valid and invalid network names
-  let netnames = ["iota", "main", "a", "0", "zz9", "foobar", "smr", "rms", "", "Main", "foobar0", "fo-o"];
+  let netnames = ["iota", "main", "a", "0", "zz9", "foobar", "smr", "rms", "", "Main", "foobar0", "fo-o", "0x", "a0xb"];
   let n = if thorough { 20_000 } else { 1_500 };
   for i in 0..n {
     let b = match i % 5 {
@@ -242,7 +252,7 @@ pub fn gen(thorough: bool, seed: u64, out: &mut impl Write) {
   let mut valid: Vec<String> = vec![];
   for _ in 0..(if thorough { 20_000 } else { 2_000 }) {
     let b = if r.chance(1, 4) { vec![0u8; 32] } else if r.chance(1, 3) { let mut x = vec![0u8; 32]; x[31] = r.below(3) as u8; x } else { r.bytes(32) };
-    let net = *r.pick(&["", "iota", "main", "a", "dev"]);
+    let net = *r.pick(&["", "iota", "main", "a", "dev", "0x", "c0x1"]);
     let t: String = b.iter().map(|x| format!("{:02x}", x)).collect();
     let mut s = if net.is_empty() { format!("did:iota:0x{}", t) } else { format!("did:iota:{}:0x{}", net, t) };
     if r.chance(1, 2) {
